@@ -3,6 +3,7 @@
 //! usage: harness <property> [--seed N] [--tier quick|thorough] [--shard i/n] [--out FILE] [extra…]
 mod common;
 mod c13;
+mod c02;
 mod c11;
 mod c08;
 mod c14;
@@ -38,6 +39,7 @@ pub fn eval_request(req: &str) -> String {
     let r = guarded(std::panic::AssertUnwindSafe(|| {
         None // one line per property module
             .or_else(|| c13::eval(op, a))
+            .or_else(|| c02::eval(op, a))
             .or_else(|| c11::eval(op, a))
             .or_else(|| c08::eval(op, a))
             .or_else(|| c14::eval(op, a))
@@ -117,6 +119,7 @@ fn main() {
             }
         }
         "C13" => c13::gen(&mut ctx),
+        "C02" => c02::gen(&mut ctx),
         "C11" => c11::gen(&mut ctx),
         "C08" => c08::gen(&mut ctx),
         "C14" => c14::gen(&mut ctx),
